@@ -26,3 +26,4 @@ pub mod track;
 pub mod stream_int;
 #[cfg(feature = "graph_info")]
 pub mod ginfo;
+pub mod stubs_c18;
